@@ -392,8 +392,11 @@ func (e *Expression) UnmarshalJSON(data []byte) (err error) {
 	}
 
 	if len(c.Right) > 0 && looksLikeRangeBoundary(c.Right) {
+		// decode numbers as json.Number so large integers are not squeezed through a float64
 		var boundary RangeBoundary
-		err = json.Unmarshal(c.Right, &boundary)
+		decoder := json.NewDecoder(bytes.NewReader(c.Right))
+		decoder.UseNumber()
+		err = decoder.Decode(&boundary)
 		if err != nil {
 			return err
 		}
@@ -557,6 +560,19 @@ func wrapInColumn(in any) (out *Expression) {
 // apparently the json unmarshal only parses float64 values so we check if the float64
 // is actually a whole number. If it is then make it an int
 func toIntIfNecessary(in any) (out any) {
+	if n, isNumber := in.(json.Number); isNumber {
+		i, err := strconv.Atoi(n.String())
+		if err == nil {
+			return i
+		}
+
+		parsed, err := n.Float64()
+		if err != nil {
+			return n.String()
+		}
+		in = parsed
+	}
+
 	f, isFloat := in.(float64)
 	if !isFloat {
 		return in
